@@ -39,9 +39,13 @@ files = sorted(f for f in glob.glob(os.path.join(REPO, "*.go")) if not f.endswit
 src = {}
 for f in files:
     src[f] = f
+mutant_mocks = {}
 if mutant:
     for f in glob.glob(os.path.join(mutant, "*.go")):
         src[os.path.join(REPO, os.path.basename(f))] = f
+    # mutated files of package mocks live in <mutant>/mocks/
+    for f in glob.glob(os.path.join(mutant, "mocks", "*.go")):
+        mutant_mocks[os.path.join(REPO, "mocks", os.path.basename(f))] = f
 
 pat = re.compile(r'^(\s*|import\s+)"sync"\s*$', re.M)
 want = set()
@@ -70,6 +74,7 @@ replace[os.path.join(REPO, "internal", "verifsync", "sync.go")] = os.path.join(V
 for f in sorted(glob.glob(os.path.join(VERIF, "engine", "overlay", "mocks", "*.go"))):
     replace[os.path.join(REPO, "mocks", os.path.basename(f))] = f
 
+replace.update(mutant_mocks)
 for o in glob.glob(os.path.join(OUT, "*.go")):
     if o not in want:
         os.remove(o)
